@@ -149,8 +149,9 @@ type scn struct {
 	overlaps [nSinks]int64
 	invoc    int64
 	echoes   int64
-	returns  int64 // sink.beforereturn passages
-	waits    int64 // AddEventAndWait calls that returned
+	returns  int64    // sink.beforereturn passages
+	waits    int64    // AddEventAndWait calls that returned
+	stacks   []string // parked goroutines of the last positive stuck evaluation (polling goroutine only)
 
 	noiseNum  uint64
 	noiseSeed uint64
@@ -261,10 +262,11 @@ func (s *scn) progress() int64 {
 // inside interpreter or scope code is parked in a lock acquisition.
 func (s *scn) stuck(pre map[uint64]bool) func() (bool, string) {
 	return func() (bool, string) {
-		ok, frame, n := c11kit.LockStuck(pre)
+		ok, frame, n, stacks := c11kit.LockStuckStacks(pre)
 		if !ok {
 			return false, ""
 		}
+		s.stacks = stacks
 		return true, fmt.Sprintf("%s|%d goroutines parked in a lock acquisition inside interpreter/scope code, none running", frame, n)
 	}
 }
@@ -276,7 +278,7 @@ func (s *scn) abandon(c *core.Ctx, stream string, idx int, outcome, why string, 
 			frame, why = why[:i], why[i+1:]
 		}
 		c.Violation("stuck:invocations-blocked:"+frame, "sink invocations never return: "+why+" (innermost ecal frame "+frame+")", stream, idx,
-			map[string]interface{}{"scenario": cfg, "invocations_begun": atomic.LoadInt64(&s.invoc), "returned": atomic.LoadInt64(&s.returns)})
+			map[string]interface{}{"scenario": cfg, "invocations_begun": atomic.LoadInt64(&s.invoc), "returned": atomic.LoadInt64(&s.returns), "parked": s.stacks})
 		return
 	}
 	c.Inconclusive("scenario neither finished nor reached a stuck state within the polling bound", stream, idx, cfg)
@@ -806,29 +808,33 @@ func gateScenario(c *core.Ctx, stream string, idx int) {
 	}()
 	var xr res
 	xFinishedEarly := false
-	held := waitFor(func() bool {
-		if gate.Holding() {
-			return true
-		}
-		select {
-		case xr = <-xdone:
-			xFinishedEarly = true
-			return true
-		default:
-			return false
-		}
-	}, 10*time.Second)
-	if !held || xFinishedEarly {
+	reached := make(chan struct{})
+	quit := make(chan struct{})
+	go func() {
+		defer close(reached)
+		waitFor(func() bool {
+			if gate.Holding() {
+				return true
+			}
+			select {
+			case xr = <-xdone:
+				xFinishedEarly = true
+				return true
+			case <-quit:
+				return true
+			default:
+				return false
+			}
+		}, time.Hour)
+	}()
+	outcome, why := c11kit.WaitDone(reached, s.progress, s.stuck(pre), time.Duration(c.Pick(30, 90))*time.Second)
+	if outcome != "done" || xFinishedEarly {
+		close(quit)
 		gate.Release()
 		kick.Stop()
 		sched.Uninstall()
-		if !xFinishedEarly {
-			if ok, why := s.stuck(pre)(); ok {
-				s.abandon(c, stream, idx, "stuck", why, g.m())
-				return
-			}
-			c.Event("gate.infeasible", 1)
-			c.Inconclusive("X neither reached its hold point nor finished", stream, idx, g.m())
+		if outcome != "done" {
+			s.abandon(c, stream, idx, outcome, why, g.m())
 			return
 		}
 		env.Finish()
@@ -854,7 +860,7 @@ func gateScenario(c *core.Ctx, stream string, idx int) {
 		xr = <-xdone
 		close(both)
 	}()
-	outcome, why := c11kit.WaitDone(both, s.progress, s.stuck(pre), time.Duration(c.Pick(30, 90))*time.Second)
+	outcome, why = c11kit.WaitDone(both, s.progress, s.stuck(pre), time.Duration(c.Pick(30, 90))*time.Second)
 	c.Event("pool.kicks", kick.Stop())
 	if outcome != "done" {
 		gate.Release()
